@@ -2,7 +2,6 @@ package main
 
 import (
 	"context"
-	"errors"
 	"fmt"
 	"sort"
 	"strings"
@@ -82,7 +81,22 @@ type sCase struct {
 	Observed map[string]string   `json:"observed_per_worker_count"`
 }
 
+// errBranch names the branch of addToNewNodeClaim / CanAdd that produced the error (distribution table only).
+func errBranch(msg string) string {
+	for _, k := range []string{"node limits have been exhausted", "all available instance types exceed limits", "did not tolerate",
+		"incompatible requirements", "minValues requirement is not met", "no instance type", "could not be reserved"} {
+		if strings.Contains(msg, k) {
+			return ":" + strings.ReplaceAll(k, " ", "-")
+		}
+	}
+	if msg == "" {
+		return ""
+	}
+	return ":other"
+}
+
 type world struct {
+	c      *kit.Ctx
 	ctx    context.Context
 	cl     client.Client
 	cp     *fake.CloudProvider
@@ -396,8 +410,9 @@ func (w *world) witness(pod *corev1.Pod) (glevels []string, jlevels []map[string
 		j := map[string]string{}
 		for _, p := range w.pools {
 			s := w.scheduler([]*corev1.Pod{lp}, 1)
-			out := s.VerifC19TemplateOutcome(w.ctx, lp.DeepCopy(), p.Name)
+			out, msg := s.VerifC19TemplateOutcomeErr(w.ctx, lp.DeepCopy(), p.Name)
 			j[p.Name] = out
+			w.c.Count("branch:template-evaluation:" + out + errBranch(msg))
 			switch out {
 			case "ok":
 				g = append(g, kit.GPair(kit.GStr(p.Name), "OOk"))
@@ -492,6 +507,7 @@ func (w *world) rankOf(name string) int {
 // runSolve runs one batch (one or several pods) through NewScheduler + Solve at every worker count and emits one case
 // per pod whose placement is the subject of the property (it opened a NodeClaim, or it failed).
 func runSolve(c *kit.Ctx, r *kit.Rand, w *world, pods []*corev1.Pod, jpods []sPod, kind string, maxTypes int) {
+	w.c = c
 	perWorker := make([][]string, len(workerCounts))
 	for k, n := range workerCounts {
 		s := w.scheduler(pods, n)
@@ -612,11 +628,11 @@ func (w *world) kfFor(o string, jobs map[string]string, levels []map[string]stri
 // Provisioner.Schedule / CreateNodeClaims do, and emits the Truncate step and the end-to-end observation.
 func (w *world) pipeline(c *kit.Ctx, results sched.Results, kind string, maxTypes int) {
 	type pre struct {
-		nc              *sched.NodeClaim
-		orig            cloudprovider.InstanceTypes
-		gRq, gIn        string
-		jRq             []jReq
-		jIn             []jIT
+		nc       *sched.NodeClaim
+		orig     cloudprovider.InstanceTypes
+		gRq, gIn string
+		jRq      []jReq
+		jIn      []jIT
 	}
 	var pres []pre
 	for _, nc := range results.NewNodeClaims {
@@ -649,7 +665,7 @@ func (w *world) pipeline(c *kit.Ctx, results sched.Results, kind string, maxType
 func partSolve(c *kit.Ctx) {
 	nSingle, nBatch := 260, 60
 	if c.Thorough() {
-		nSingle, nBatch = 2600, 600
+		nSingle, nBatch = 1300, 300
 	}
 	// corpus: the smallest input on which the strict reading fails (kept first, see Properties/C19.v)
 	corpusRelax(c)
@@ -681,8 +697,9 @@ func simpleType(name string) *cloudprovider.InstanceType {
 }
 
 // corpusRelax: NodePool "high" (weight 100, team=x) and "low" (weight 1, team=y).
-//  (a) a pod that merely PREFERS team=y gets a node from "low" although "high" can host it;
-//  (b) a pod that requires (team=y OR team=x) gets a node from "low" as well: only the first term is tried first.
+//
+//	(a) a pod that merely PREFERS team=y gets a node from "low" although "high" can host it;
+//	(b) a pod that requires (team=y OR team=x) gets a node from "low" as well: only the first term is tried first.
 func corpusRelax(c *kit.Ctx) {
 	for variant := 0; variant < 2; variant++ {
 		w := buildWorld([]poolSpec{
@@ -706,5 +723,3 @@ func corpusRelax(c *kit.Ctx) {
 		runSolve(c, c.Rand.Fork(), w, []*corev1.Pod{pod}, []sPod{sp}, "corpus", 600)
 	}
 }
-
-var _ = errors.Is
